@@ -37,38 +37,65 @@ class FieldStub:
 
 
 def assemble_rule(ctx):
+    """R13.2: BiLinearForm.Assemble / LinearForm.Assemble interpreted on a two-element group with symbolic element arrays
+    (Integrate_e stubbed, the group's own row / column / assembly maps interpreted, scipy's duplicate-summing
+    constructor modelled): the sparse matrix is the scatter-add of the element arrays."""
+    from .c03 import XCsr
+    from ..xeval import _Bound
+
     repo = ctx.repo
     mod = repo.module(FORMS)
-    # ---- R13.2
-    r2 = ctx.rule("R13.2", "Assemble: matrices scatter with Get_rows_e / Get_columns_e, vectors with Get_assembly_e and column 0, in the order of Integrate_e(...).ravel()", min_instances=2)
-    for cname, want_rows, want_cols in (("BiLinearForm", "Get_rows_e", "Get_columns_e"), ("LinearForm", "Get_assembly_e", "zeros")):
+    r2 = ctx.rule("R13.2", "Assemble interpreted: the sparse matrix / vector of a form is the scatter-add of Integrate_e over the group's dof maps (dof_n = 1 and 2)", min_instances=4)
+    ge = repo.cls("EasyFEA.FEM._group_elem._GroupElem")
+    conn = [[0, 1, 2], [1, 3, 2]]
+    Nn = 4
+    for cname, bil in (("BiLinearForm", True), ("LinearForm", False)):
         ci = mod.classes[cname]
         f = ci.methods["Assemble"]
-        r2.instance(fn=f.qualname)
-        from ..flow import Locals
+        for dof_n in (1, 2):
+            r2.instance(fn=f.qualname)
+            c = XArray((2, 3), [n for row in conn for n in row])
+            g = XObj(ge, {"nPe": 3, "Ne": 2, "Ncoords": Nn, "connect": c, ge.mangle("__connect"): c})
+            n = 3 * dof_n
+            X = XArray((2, n, n) if bil else (2, n, 1), [Poly.var(f"x{e}_{i}_{j}") for e in range(2) for i in range(n) for j in range(n if bil else 1)])
+            fld = SimpleNamespace(dof_n=dof_n, groupElem=g)
+            obj = XObj(ci, {"Integrate_e": lambda field=None, X=X: X})
 
-        L = Locals(f.node)
-        csr = [n for n in ast.walk(f.node) if isinstance(n, ast.Call) and (dotted(n.func) or "").endswith("csr_matrix")]
-        ok = False
-        detail = ""
-        if csr and csr[0].args:
-            a0 = L.resolve(csr[0].args[0])
-            if isinstance(a0, ast.Tuple) and len(a0.elts) == 2 and isinstance(L.resolve(a0.elts[1]), ast.Tuple):
-                vals, idx = a0.elts[0], L.resolve(a0.elts[1])
-                vo, ro, co = L.text(vals), L.text(idx.elts[0]), L.text(idx.elts[1])
-                rows_ok = f".{want_rows}(" in ro and ro.endswith(".ravel()")
-                if want_cols == "zeros":
-                    cols_ok = co.startswith("np.zeros_like(") or co.startswith("np.zeros(")
-                else:
-                    cols_ok = f".{want_cols}(" in co and co.endswith(".ravel()")
-                vals_ok = ".Integrate_e(" in vo and ".ravel()" in vo
-                ok = rows_ok and cols_ok and vals_ok
-                detail = f"values <- {vo}; rows <- {ro}; cols <- {co}"
-        if ok:
-            r2.ok(f"{cname}.Assemble: {detail}")
-        else:
-            r2.fail(f.qualname, "index-maps", f.file, f.lineno, f"{cname}.Assemble", f"the sparse constructor is not fed with (Integrate_e.ravel(), ({want_rows}.ravel(), {'0' if want_cols == 'zeros' else want_cols + '.ravel()'})): {detail or 'csr_matrix((values, (rows, cols))) not found'}")
+            def hook(fn, args, kwargs):
+                if isinstance(fn, Opaque) and fn.tag.endswith("csr_matrix"):
+                    return XCsr(*args, **kwargs)
+                return NotImplemented
 
+            I = Interp(repo)
+            I.call_hook = hook
+            key = f"{cname}:dof_n={dof_n}"
+            try:
+                M = I.call_function(f, [fld], self_obj=obj)
+            except XRaise as e:
+                r2.fail(f.qualname, key, f.file, f.lineno, f"{cname}.Assemble", f"dof_n={dof_n}: raises {e}")
+                continue
+            want = {}
+            for e in range(2):
+                for i in range(n):
+                    di = conn[e][i // dof_n] * dof_n + i % dof_n
+                    for j in range(n if bil else 1):
+                        dj = conn[e][j // dof_n] * dof_n + j % dof_n if bil else 0
+                        want[(di, dj)] = want.get((di, dj), Poly()) + X[e, i, j]
+            bad = None
+            if not isinstance(M, XCsr):
+                bad = "no sparse matrix is returned"
+            else:
+                got = M.dense()
+                for k in set(want) | set(got):
+                    if not is_zero(Poly.of(got.get(k, 0)) - want.get(k, Poly())):
+                        bad = f"entry {k}: {got.get(k, 0)!r}, expected {want.get(k, Poly())!r}"
+                        break
+                if M.shape != ((Nn * dof_n, Nn * dof_n) if bil else (Nn * dof_n, 1)):
+                    bad = f"shape {M.shape}"
+            if bad:
+                r2.fail(f.qualname, key, f.file, f.lineno, f"{cname}.Assemble", f"dof_n={dof_n}: {bad}: the assembled {'matrix' if bil else 'vector'} is not the scatter-add of the element arrays")
+            else:
+                r2.ok(f"{cname}.Assemble dof_n={dof_n}: scatter-add of Integrate_e")
 
 
 def run(ctx):
